@@ -21,6 +21,8 @@ import BumpProof.Lemmas.CollBasic
 import BumpProof.Lemmas.CollGrow
 import BumpProof.Lemmas.CollPerm
 import BumpProof.Lemmas.CollStd
+import BumpProof.Lemmas.CollDrain
+import BumpProof.Lemmas.CollExtract
 
 namespace C08
 open Coll
@@ -298,5 +300,90 @@ theorem resize_refines (env : Env) (v : Vec) (hv : v.WF) (newLen : Nat) (value :
       unfold truncateSpec; split
       · rw [List.take_of_length_le (by omega)]
       · rfl
+
+/-! ## drain / into_iter / extract_if / map_in_place / append -/
+
+/-- `drain(start..end)`: panics exactly for `start > end` or `end > len` (and then changes nothing);
+    otherwise the calls of `next` / `next_back` yield the elements of the range from its two ends
+    (`pullsSpec`, a double-ended queue), dropping the `Drain` removes the whole range, `keep_rest`
+    removes only what was yielded -/
+theorem drain_refines (v : Vec) (hv : v.WF) (start end_ : Nat) (script : List Pull) (fin : Fin) :
+    ∃ r, drain [] v start end_ script fin = .ok r ∧ r.vec.len ≤ r.vec.cap ∧ r.vec.cap = v.cap ∧
+      (if start > end_ ∨ end_ > v.len then r.vec.abs = v.abs ∧ r.exit = .panic false
+       else
+         r.exit = .ret (pullsSpec ((v.abs.take end_).drop start) script).1 ∧
+         r.vec.abs = v.abs.take start ++
+            (match fin with | .drop => [] | .keepRest => (pullsSpec ((v.abs.take end_).drop start) script).2) ++
+            v.abs.drop end_) := by
+  have ⟨hs, hl⟩ := hv.slots_eq
+  have hcap := hv.len_le_cap
+  have heq := drain_eq [] v v.abs start end_ script fin hs hl
+  have hlen := drainSpec_len [] v.abs start end_ script fin
+  obtain ⟨r, h1, h2, h3, -, h5, h6⟩ := refines_of_eq heq (by omega)
+  refine ⟨r, h1, h5, h6, ?_⟩
+  rw [h2, h3]
+  unfold drainSpec
+  rw [← hl]
+  split
+  · simp
+  · cases fin <;> simp
+
+/-- `into_iter()`: the pulls yield the elements from the two ends, afterwards nothing is owned -/
+theorem into_iter_refines (v : Vec) (hv : v.WF) (script : List Pull) :
+    ∃ r, intoIter [] v script = .ok r ∧ r.exit = .ret (pullsSpec v.abs script).1 ∧ r.vec.abs = [] := by
+  have ⟨hs, hl⟩ := hv.slots_eq
+  have heq := intoIter_eq [] v v.abs script hs hl
+  obtain ⟨r, h1, h2, h3, -, -, -⟩ := refines_of_eq heq (by simp [intoIterSpec])
+  exact ⟨r, h1, by rw [h3]; simp [intoIterSpec], by rw [h2]; simp [intoIterSpec]⟩
+
+/-- `extract_if(pred)` consumed to the end, answers `bs`: the elements whose answer is `true` are
+    yielded in order, the others stay in order (`Vec::extract_if` over the whole vector) -/
+theorem extract_if_refines (v : Vec) (hv : v.WF) (bs : List Nat) (o : List Outcome) (calls : Nat)
+    (hb : bs.length = v.len) (hc : calls > v.len) :
+    ∃ r, extractIf v calls (rets bs ++ o) = .ok r ∧ r.exit = .ret (keptBy (· != 0) v.abs bs) ∧
+      r.vec.abs = keptBy (· == 0) v.abs bs ∧ r.rest = o ∧ r.vec.len ≤ r.vec.cap ∧ r.vec.cap = v.cap := by
+  have ⟨hs, hl⟩ := hv.slots_eq
+  have hcap := hv.len_le_cap
+  have heq := extractIf_eq v v.abs calls (rets bs ++ o) hs hl
+  have hlen := extractSpec_len calls v.abs (rets bs ++ o)
+  obtain ⟨r, h1, h2, h3, h4, h5, h6⟩ := refines_of_eq heq (by omega)
+  have hrun := extractRun_rets v.abs [] bs o calls (by omega) (by omega)
+  refine ⟨r, h1, ?_, ?_, ?_, h5, h6⟩
+  · rw [h3]; simp [extractSpec, hrun]
+  · rw [h2]; simp [extractSpec, hrun]
+  · rw [h4]; simp [extractSpec, hrun]
+
+/-- `map_in_place(f)` with `f` returning the values `ids`: same length, results in order -/
+theorem map_in_place_refines (v : Vec) (hv : v.WF) (ids : List Id) (o : List Outcome) (hi : ids.length = v.len) :
+    ∃ r, mapInPlace [] v (rets ids ++ o) = .ok r ∧ r.exit = .ret () ∧ r.vec.abs = ids ∧ r.vec.len = v.len ∧ r.rest = o := by
+  have ⟨hs, hl⟩ := hv.slots_eq
+  have hcap := hv.len_le_cap
+  have heq := mapInPlace_eq [] v v.abs (rets ids ++ o) hs hl
+  rw [mapSpec_rets v.abs [] ids o (by omega)] at heq
+  obtain ⟨r, h1, h2, h3, h4, -, -⟩ := refines_of_eq heq (by simp; omega)
+  refine ⟨r, h1, h3, by simpa using h2, ?_, h4⟩
+  have : r.vec.abs.length = r.vec.len := by
+    rw [h1] at heq; cases heq; simp [Vec.after, Vec.abs, take_I_H]
+  rw [← this, h2]; simp; omega
+
+/-- `append(other)` with room: the elements of `other` follow those of `self`, `other` is left empty -/
+theorem append_refines (env : Env) (v other : Vec) (hv : v.WF) (ho : other.WF) (hroom : room env v other.len = true) :
+    ∃ r o', append env v other = .ok (r, o') ∧ r.exit = .ret () ∧ r.vec.abs = v.abs ++ other.abs ∧
+      o'.len = 0 ∧ r.vec.len ≤ r.vec.cap := by
+  have ⟨hs, hl⟩ := hv.slots_eq
+  have ⟨hso, hlo⟩ := ho.slots_eq
+  have heq := append_eq env v other v.abs other.abs hs hl hso hlo
+  have ⟨g, hc⟩ := grown_grows' (env := env) (n := other.len) hv
+  have := hc hroom
+  rw [hroom] at heq
+  have ⟨ha, hl', hcp⟩ := after_facts (grown env v other.len) (appendSpec true v.abs other.abs) (by simp [appendSpec]; omega)
+  refine ⟨_, _, heq, by simp [appendSpec], by rw [ha]; simp [appendSpec], rfl, ?_⟩
+  rw [hl', hcp]; simp [appendSpec]; omega
+
+/-- non-vacuity: `[1,2,3,4,5].retain(|x| answers 1,0,1,1,0)` on a vector with 2 spare slots -/
+example : ∃ r, retain [] (Vec.mk' [1, 2, 3, 4, 5] 2) (rets [1, 0, 1, 1, 0]) = .ok r ∧ r.vec.abs = [1, 3, 4] ∧ r.vec.cap = 7 :=
+  ⟨_, rfl, by decide, by decide⟩
+
+example : (Vec.mk' [1, 2, 3, 4, 5] 2).WF := ⟨⟨[1, 2, 3, 4, 5], by decide, by decide⟩, by decide⟩
 
 end C08
